@@ -16,13 +16,17 @@
 (*        over: result attribute, source attribute re-read, status         *)
 (*  {"k":"run","ev":..,"late":..,"out":..,"src":..,"st":..,"ex":..}        *)
 (*        a free-running (ungated, perturbed) parallel call as one line    *)
-(*  {"k":"field","seq":[[attr,x,y,z,count]..],"par":..,"sst","pst",..}     *)
+(*  {"k":"field","fi":..,"seq":[[attr,x0,x1,y0,y1,z0,z1,count]..],"par":.., *)
+(*   "sst","pst",..}                                                       *)
 (*        AddField vs AddFieldParallel[2]: multiset of evaluated lattice   *)
-(*        points of one field                                              *)
-(*  {"k":"march","what":"ref"|"fieldpar"|"marchpar","attr","cut2","tris"}  *)
+(*        points of field fi of the case (boxes); the fields of one case   *)
+(*        go one after the other into the SAME pair of canvases            *)
+(*  {"k":"march","what":"ref"|"fieldpar"|"marchpar","fi","attr","cut2",    *)
+(*   "tris"}    after field fi had been added:                             *)
 (*        ref      = March on the sequentially accumulated canvas          *)
 (*        fieldpar = March on the canvas accumulated by the parallel entry *)
 (*        marchpar = MarchParallel on the reference canvas                 *)
+(*        tris is in the canonical form of the multiset (ParContract)      *)
 (*  {"k":"race","n":..,"h":..}  reports of the Go race detector for the    *)
 (*        case (auxiliary observer): n inside polyform, h harness only     *)
 (*                                                                         *)
@@ -40,7 +44,7 @@ vars == <<l, cs, sq, visits, ref>>
 
 NoCase == [kind |-> "none"]
 NoSeq == [st |-> "NONE"]
-NoRef == [st |-> "NONE", attr |-> 0, cut2 |-> 0]
+NoRef == [st |-> "NONE", attr |-> 0, cut2 |-> 0, fi |-> 0]
 
 Init == l = 1 /\ cs = NoCase /\ sq = NoSeq /\ visits = <<>> /\ ref = NoRef
 
@@ -120,7 +124,12 @@ OnField ==
     /\ Trace[l].k = "field"
     /\ LET ln == Trace[l]
            hasSeq == ln.sst # "SKIP"
+           fs == cs.fields[ln.fi + 1]
+           want == {DomainBox(fs.attrs[i], fs.lo, fs.hi) : i \in DOMAIN fs.attrs}
            bad == (IF hasSeq /\ ln.sst # "OK" THEN {"Seq.FieldStatus"} ELSE {})
+                  \* the reference itself evaluates the contract's box (exact for cubesPerUnit a power of two)
+                  \cup (IF hasSeq /\ ln.sst = "OK" /\ cs.cpu \in {1, 2, 4} /\ {ln.seq[k] : k \in DOMAIN ln.seq} # want
+                        THEN {"Seq.FieldBox"} ELSE {})
                   \cup (IF ln.offlat THEN {"Harness.Lattice"} ELSE {})
                   \cup (IF hasSeq /\ ln.pst # ln.sst THEN {"C10.Status"} ELSE {})
                   \* the parallel entry point evaluates the field at exactly the lattice points
@@ -141,7 +150,7 @@ OnMarch ==
          ELSE /\ ref' = ref
               /\ LET name == IF ln.what = "fieldpar" THEN "C10.FieldResult" ELSE "C10.MarchEqual"
                      bad == IF ref.st = "NONE" THEN {}        \* race runs carry no reference
-                            ELSE IF ref.attr # ln.attr \/ ref.cut2 # ln.cut2 THEN {"Harness.Order"}
+                            ELSE IF ref.attr # ln.attr \/ ref.cut2 # ln.cut2 \/ ref.fi # ln.fi THEN {"Harness.Order"}
                             ELSE (IF ln.st # ref.st THEN {"C10.Status"} ELSE {})
                                  \cup (IF ln.st = "OK" /\ ref.st = "OK" /\ (~ln.ex \/ ~SameBag(ref.tris, ln.tris))
                                        THEN {name} ELSE {})
